@@ -6,7 +6,8 @@ import RrModel.Go.Header
   `CanStaleIfError`, `CanStaleWhileRevalidate`, `VaryByOrigin`, `normalizeEtag`;
   server/server.go:480-491 `shouldSkipCaching` and the method gate of server.go:105.
   Written branch for branch, quirks kept:
-    * only SPACES are trimmed (`strings.Trim(s, " ")`), never HTAB;
+    * optional white space is SP / HTAB: every trim is `strings.Trim(s, " \t")` (since the fix
+      for finding C10-a; before it only spaces were trimmed);
     * a part containing `=` is split on every `=` and dropped unless that gives exactly 2 pieces;
     * the key and the value are trimmed again, so `max-age = 5` is read as `max-age=5`;
     * `strconv.Atoi` accepts a sign; an unparsable or overflowing number leaves the field alone;
@@ -29,10 +30,10 @@ structure Directives where
   vary : List Bytes := []
   deriving Repr, DecidableEq
 
-/-- caching.go:847-856: every value of header `k`, split on `,`, each piece trimmed of
-    spaces and lower-cased -/
+/-- caching.go:853-862: every value of header `k`, split on `,`, each piece trimmed of
+    SP / HTAB and lower-cased -/
 def allHeaderValues (k : Bytes) (h : Header) : List Bytes :=
-  (h.values k).flatMap fun vs => (split1 44 vs).map fun s => toLower (trim b!" " s)
+  (h.values k).flatMap fun vs => (split1 44 vs).map fun s => toLower (trim b!" \t" s)
 
 /-- the assignment (at most one) that one comma-separated part makes the loop body execute -/
 inductive PartEffect where
@@ -58,8 +59,8 @@ def partEffect (d : Bytes) : PartEffect :=
   if contains d b!"=" then
     match split1 61 d with
     | [k0, v0] =>
-      let k := trim b!" " k0
-      let v := trim b!" " v0
+      let k := trim b!" \t" k0
+      let v := trim b!" \t" v0
       if k = b!"max-age" then numericEffect v .maxAge
       else if k = b!"s-maxage" then numericEffect v .sMaxAge
       else if k = b!"stale-if-error" then numericEffect v .staleIfError
@@ -67,7 +68,7 @@ def partEffect (d : Bytes) : PartEffect :=
       else .nothing
     | _ => .nothing          -- len(kv) != 2 ⇒ continue
   else
-    let d' := trim b!" " d
+    let d' := trim b!" \t" d
     if d' = b!"private" then .priv
     else if d' = b!"no-cache" then .noCache
     else if d' = b!"no-store" then .noStore
